@@ -21,7 +21,7 @@ ROOT = os.path.dirname(os.path.dirname(os.path.abspath(__file__)))
 sys.path.insert(0, ROOT)
 
 CONTRACTS = os.path.join(ROOT, "contracts")
-EVIDENCE = os.path.join(ROOT, "evidence")
+EVIDENCE = os.environ.get("PYVC_EVIDENCE") or os.path.join(ROOT, "evidence")   # override: developer runs on scratch copies only
 REPLAY_DIR = os.path.join(EVIDENCE, "replay")
 VENV_PY = "/venv/bin/python"
 PROPS = os.path.join(ROOT, "properties.py")
